@@ -249,16 +249,12 @@ package core
 //@ func (*AggregatedBloomFilter).clear
 //@   trusted
 //@   logged as clearBlock
-//@ func NewAggregatedFilter
-//@   trusted
 //@ func WriteAggregatedBloomFilter
 //@   trusted
 //@   logged
 //@ func DeleteAggregatedBloomFilter
 //@   trusted
 //@   logged
-//@ func GetAggregatedBloomFilter
-//@   trusted
 //@ func DeleteRunningEventFilter
 //@   trusted
 //@   logged as DeleteSnapshot
